@@ -164,6 +164,9 @@ def parse_kani_output(out, r):
             r.failed.append((desc, loc))
     if re.search(r'VERIFICATION:- SUCCESSFUL', out):
         r.status = 'SUCCESS'
+    elif re.search(r'VERIFICATION:- FAILED', out) and (re.search(r'CBMC failed|out of memory|CBMC timed out|exited with status', out) and not r.failed):
+        r.status = 'ERROR'     # resource exhaustion of the back end: undecided, never an alarm
+        r.log_tail = 'CBMC resource exhaustion: ' + out[-600:]
     elif re.search(r'VERIFICATION:- FAILED', out):
         r.status = 'FAILURE'
         if not r.failed and r.ignored and r.n_checks > 0 and 'CBMC failed' not in out and 'exited with status' not in out:
